@@ -130,6 +130,18 @@ def cases(ctx):
                                 t.append(['dropview'])
                             t += [['next', 2, 'all'], ['iter', 3], ['next', 3, 'all'], ['next', 0, 'all']]
                             yield {'target': 'sort', 'n': n, 'buffersize': bs, 'cache': cache, 'fail': None, 'failpass': None, 'steps': t}
+                # the pass that filled the cache is still running: A (fresh, part-way) filled the cache, C is served from it; the
+                # cache is then replaced (B, created before any cache existed, starts its own fresh pass; or clearcache) and A
+                # runs to its end or is abandoned.  C reads A's chunk files: they must outlive A's own pass
+                for ka in (2, 3):
+                    for kc in (0, 1, 2):
+                        for how in ('late-pass', 'clearcache'):
+                            for fin in ('all', 'drop'):
+                                t = [['iter', 0], ['iter', 1], ['next', 0, ka], ['iter', 2], ['next', 2, kc]]
+                                t.append(['next', 1, 1] if how == 'late-pass' else ['clearcache'])
+                                t.append(['next', 0, 'all'] if fin == 'all' else ['drop', 0])
+                                t += [['next', 2, 'all'], ['next', 1, 'all'], ['iter', 3], ['next', 3, 'all']]
+                                yield {'target': 'sort', 'n': n, 'buffersize': bs, 'cache': cache, 'fail': None, 'failpass': None, 'steps': t}
                 # source failures: every fail point, failing on every pass or only the first
                 for fail in range(0, n + 2):
                     for failpass in (None, 1):
